@@ -434,8 +434,7 @@ class Discharger:
                         contexts.append((f2, n))
                         covered.update(hit)
             self.g.walk(fb, w, follow=False)
-        if not contexts:
-            return None, "no parser hands its text to %s through a mapped function" % f.key
+        contexts_seen = []
         # any other use from a parser function (a plain call between two parsing steps) is not explained here
         inside = set()
         for _, n in contexts:
@@ -449,20 +448,72 @@ class Discharger:
                     a0 = peg.strip_refs(mc["args"][0])
                     if a0.get("k") == "path" and a0["segs"][-1] == self.f.fns[fk].name:
                         inside.add(id(a0))
+        imperative = []
         for f2 in fns:
             if self.b._input_name(f2) is None or f2.key in reach:
                 continue
             for k_ in reach:
                 tg = self.f.fns[k_]
                 for x in find_all(f2.body, lambda x: x.get("k") == "path" and x["segs"][-1] == tg.name, skip_pats=True):
-                    if id(x) not in inside and self.refers_to(f2, tg):
-                        return None, "%s uses %s outside a mapped function" % (f2.key, k_)
+                    if id(x) not in inside and self.refers_to(f2, tg) and f2 not in imperative:
+                        imperative.append(f2)
+        # parser functions written in statements (steps, then ordinary code using the helper): the whole function is
+        # evaluated with unknown texts, every branch of its alternations in turn
+        for f2 in imperative:
+            if not (f.params and f.params[0][1] == "char" and len(f.params) == 1):
+                return None, "%s uses %s outside a mapped function" % (f2.key, f.key)
+            picks, tried, sets = [{}], 0, {}
+            while picks and tried < 32:
+                pick = picks.pop(0)
+                tried += 1
+                ctx = irval.SymCtx(self.f, self.b, f2.module, pick)
+                # every function of one character stays uninterpreted (each is examined at its own panic site)
+                ctx.probe.opaque_calls = {g_.key for g_ in fns if [t_ for n_, t_ in g_.params if n_ != "self"] == ["char"]} | {f.key}
+                try:
+                    irval.run_parser_fn(f2, ctx)
+                except P.Panic as ex:
+                    return False, "in %s: %s" % (f2.key, ex)
+                except P.NoEval as ex:
+                    return None, "%s not evaluable on unknown texts: %s" % (f2.key, ex)
+                for a_ in ctx.alts:
+                    if id(a_) not in pick and len(picks) < 32:
+                        for i_ in range(1, len(a_["alts"])):
+                            nxt = dict(pick)
+                            nxt[id(a_)] = i_
+                            picks.append(nxt)
+                        pick = dict(pick)
+                        pick[id(a_)] = 0
+                for k_, av in ctx.probe.opaque_log:
+                    if k_ != f.key:
+                        continue
+                    if len(av) == 1 and id(av[0]) in ctx.origin:
+                        nd = ctx.origin[id(av[0])]
+                        sets[id(nd)] = nd
+                    else:
+                        return None, "%s is applied to something other than a character of the parsed text in %s" % (f.key, f2.key)
+            if not sets:
+                return None, "%s: no application of %s seen" % (f2.key, f.key)
+            pr = P.Probe(self.f, None, f.module)
+            for nd in sets.values():
+                if nd["cs"][0] != "in":
+                    return None, "%s passes characters of an unbounded set" % f2.key
+                for ch in sorted(nd["cs"][1]):
+                    try:
+                        pr.invoke(f, None, [ch])
+                    except P.Panic as ex:
+                        return False, "%s passes characters of %s; %r reaches %s" % (f2.key, peg.cs_show(nd["cs"]), ch, ex)
+                    except P.NoEval as ex:
+                        return None, "%s not evaluable on %r: %s" % (f.key, ch, ex)
+                details_pre = "%s applies it to each character of a run over %s, all of them evaluated" % (f2.key, peg.cs_show(nd["cs"]))
+                contexts_seen.append(details_pre)
         # a function of `reach` that is used in any other way (plain call from non-mapped code, public API) is not explained
         for k_ in reach:
             g_ = self.f.fns[k_]
             if g_.node.get("vis") == "pub" and k_ != f.key:
                 return None, "%s is public: callers outside the crate are not bounded" % k_
-        details = []
+        details = list(contexts_seen)
+        if not contexts and not details:
+            return None, "no parser hands its text to %s" % f.key
         for f2, n in contexts:
             leaf = n["p"]
             while leaf["t"] in ("map", "ctx", "cut", "trymap", "verify"):
@@ -1050,6 +1101,14 @@ def progress(c, facts, b, g, mfacts):
         reps = []
         g.walk(fb, lambda x: reps.append(x) if x["t"] in ("rep", "reptill", "sep") else None, follow=False)
         for r in reps:
+            if b._input_name(fn) is None:
+                prm = []
+                g.walk(r["p"], lambda x: prm.append(x) if x["t"] == "param" else None, follow=False)
+                if prm:
+                    # a parser *builder* (no input of its own) repeating one of its parameters: the repetition is examined
+                    # where the builder is used, with the actual argument (the body is expanded at every call site; a
+                    # use that cannot be expanded is reported as an unmodelled parser there)
+                    continue
             n += 1
             nul = g.nullable(r["p"])
             rng = r["max"] is None or r["min"] <= r["max"]
